@@ -1,1 +1,1012 @@
-fn main() { eprintln!("not built yet"); std::process::exit(2); }
+//! C17 — DBC tables survive write→parse and all access paths agree.
+//!
+//! Bounded exhaustive exploration: every schema of up to L fields over 36 field kinds
+//! (9 types x {scalar, [1], [2], [3]}), every admissible key position, a fixed family of
+//! record sets per schema (counts, key order classes, two string-block layouts).  Each table
+//! enters the library as bytes produced by the independent emitter in `dbcref`, is parsed,
+//! written by `DbcWriter`, the output is judged by the independent reader, parsed back, and
+//! read through the eager, lazy, memory-mapped and parallel (real rayon) paths.
+mod dbcref;
+mod model;
+
+use dbcref::{HeaderKind, Layout};
+use model::*;
+use serde_json::{json, Value as J};
+use std::collections::{BTreeSet, HashSet};
+use std::io::Cursor;
+use std::sync::{Arc, OnceLock};
+use vcore::*;
+use wow_cdbc::{
+    DbcParser, DbcWriter, FieldType, LazyDbcParser, MmapDbcFile, Record, RecordSet, Schema, SchemaField, StringRef,
+    Value,
+};
+
+// ------------------------------------------------------------------ library glue
+
+fn ft(t: Ty) -> FieldType {
+    match t {
+        Ty::U32 => FieldType::UInt32,
+        Ty::I32 => FieldType::Int32,
+        Ty::F32 => FieldType::Float32,
+        Ty::Str => FieldType::String,
+        Ty::Bool => FieldType::Bool,
+        Ty::U8 => FieldType::UInt8,
+        Ty::I8 => FieldType::Int8,
+        Ty::U16 => FieldType::UInt16,
+        Ty::I16 => FieldType::Int16,
+    }
+}
+
+fn lib_schema(s: &Sch) -> Schema {
+    let mut sc = Schema::new("T");
+    for (i, k) in s.fields.iter().enumerate() {
+        let name = format!("f{i}");
+        match k.arr {
+            None => sc.add_field(SchemaField::new(name, ft(k.ty))),
+            Some(n) => sc.add_field(SchemaField::new_array(name, ft(k.ty), n)),
+        };
+    }
+    if let Some(k) = s.key {
+        sc.set_key_field_index(k);
+    }
+    sc
+}
+
+fn raw(v: &Value) -> Cell {
+    match v {
+        Value::Int32(x) => Cell::I32(*x),
+        Value::UInt32(x) => Cell::U32(*x),
+        Value::Float32(x) => Cell::F32(x.to_bits()),
+        Value::StringRef(r) => Cell::Ref(r.offset()),
+        Value::Bool(b) => Cell::Bool(*b),
+        Value::UInt8(x) => Cell::U8(*x),
+        Value::Int8(x) => Cell::I8(*x),
+        Value::UInt16(x) => Cell::U16(*x),
+        Value::Int16(x) => Cell::I16(*x),
+        Value::Array(v) => Cell::Arr(v.iter().map(raw).collect()),
+    }
+}
+fn raw_rec(r: &Record) -> Vec<Cell> {
+    r.values().iter().map(raw).collect()
+}
+
+fn resolve(c: &Cell, get: &dyn Fn(u32) -> Result<String, String>) -> Result<Cell, String> {
+    Ok(match c {
+        Cell::Ref(o) => Cell::Str(get(*o)?),
+        Cell::Arr(v) => Cell::Arr(v.iter().map(|x| resolve(x, get)).collect::<Result<Vec<_>, _>>()?),
+        o => o.clone(),
+    })
+}
+
+fn short(c: &Cell) -> String {
+    let s = format!("{:?}", c);
+    if s.len() > 90 {
+        let mut cut = 90;
+        while !s.is_char_boundary(cut) {
+            cut -= 1;
+        }
+        format!("{}…", &s[..cut])
+    } else {
+        s
+    }
+}
+
+// ------------------------------------------------------------------ rayon pools
+
+/// thread classes for the parallel path: 0 = the global pool (4 threads), else a private pool
+const THREAD_CLASSES: [usize; 4] = [0, 1, 2, 3];
+static POOLS: OnceLock<Vec<rayon::ThreadPool>> = OnceLock::new();
+
+fn pools() -> &'static Vec<rayon::ThreadPool> {
+    POOLS.get_or_init(|| {
+        let _ = rayon::ThreadPoolBuilder::new().num_threads(4).build_global();
+        (1..=3).map(|n| rayon::ThreadPoolBuilder::new().num_threads(n).build().expect("rayon pool")).collect()
+    })
+}
+
+fn in_pool<T: Send>(class: usize, f: impl FnOnce() -> T + Send) -> T {
+    let p = pools();
+    if class == 0 {
+        f()
+    } else {
+        p[class - 1].install(f)
+    }
+}
+
+fn thread_class_name(c: usize) -> String {
+    if c == 0 {
+        "global pool of 4".into()
+    } else {
+        format!("pool of {c}")
+    }
+}
+
+// ------------------------------------------------------------------ per-case context
+
+static T_SEC: [std::sync::atomic::AtomicU64; 6] = [const { std::sync::atomic::AtomicU64::new(0) }; 6];
+fn lap(t: &mut std::time::Instant, k: usize) {
+    let now = std::time::Instant::now();
+    T_SEC[k].fetch_add((now - *t).as_nanos() as u64, std::sync::atomic::Ordering::Relaxed);
+    *t = now;
+}
+
+struct Cx<'a> {
+    r: &'a mut CaseResult,
+    seen: HashSet<String>,
+    flags: BTreeSet<&'static str>,
+    sc: &'a Scratch,
+    /// run every rayon thread class on every file (else: a reduced, rotating selection)
+    all_classes: bool,
+    /// rotation counter for the reduced selection
+    rot: usize,
+    /// put the field type class into path-comparison symptoms
+    typed: bool,
+}
+impl Cx<'_> {
+    /// at most one violation per symptom class and case
+    fn viol(&mut self, sym: String, detail: String) {
+        if self.seen.insert(sym.clone()) {
+            self.r.viol(sym, detail);
+        }
+    }
+}
+
+/// What the records of an access path are compared with.
+enum Want<'a> {
+    /// an independent table (ground truth of the emitter, or the independent reader's decode of a written file)
+    Table(&'a Table, &'a str),
+    /// the eager path's result on the same file: raw cells (string offsets included) and, when the
+    /// eager references resolved, the resolved texts
+    Eager(&'a [Vec<Cell>], Option<&'a Table>),
+}
+
+/// Compare the records of one access path (strings resolved through that path's string block).
+#[allow(clippy::too_many_arguments)]
+fn compare_path(cx: &mut Cx, tag: &str, path: &str, got: &[Vec<Cell>], get: &dyn Fn(u32) -> Result<String, String>, sch: &Sch, want: Want, ctx: &str) {
+    cx.r.count("path_comparisons", 1);
+    let (want_len, want_name) = match &want {
+        Want::Table(t, n) => (t.len(), n.to_string()),
+        Want::Eager(e, _) => (e.len(), "eager path".to_string()),
+    };
+    if got.len() != want_len {
+        cx.viol(
+            format!("{tag}: {path} returns a different number of records than the {want_name}"),
+            format!("{ctx}: got {} records, {want_name} has {}", got.len(), want_len),
+        );
+        return;
+    }
+    cx.r.count("cells_compared", (got.len() * sch.fields.len()) as u64);
+    for (ri, rec) in got.iter().enumerate() {
+        if rec.len() != sch.fields.len() {
+            cx.viol(
+                format!("{tag}: {path} record has a different number of values than the schema has fields"),
+                format!("{ctx}: record {ri} has {} values, schema {} fields", rec.len(), sch.fields.len()),
+            );
+            return;
+        }
+        for (fi, c) in rec.iter().enumerate() {
+            let kind = sch.fields[fi];
+            let ty = if cx.typed { format!(" in a field of type {}", kind.class()) } else { String::new() };
+            if let Want::Eager(e, _) = &want {
+                if e[ri].get(fi) != Some(c) {
+                    cx.viol(
+                        format!("{tag}: {path} record differs from the eager record{ty}"),
+                        format!("{ctx}: record {ri} field {fi} ({}): {} vs eager {:?}", kind.label(), short(c), e[ri].get(fi).map(short)),
+                    );
+                    return;
+                }
+            }
+            let expected = match &want {
+                Want::Table(t, _) => t[ri].get(fi),
+                Want::Eager(_, Some(t)) => t[ri].get(fi),
+                Want::Eager(_, None) => continue,
+            };
+            match resolve(c, get) {
+                Err(e) => {
+                    cx.viol(
+                        format!("{tag}: {path} string reference does not resolve{ty}"),
+                        format!("{ctx}: record {ri} field {fi} ({}): {} -> {e}", kind.label(), short(c)),
+                    );
+                    return;
+                }
+                Ok(v) => {
+                    if Some(&v) != expected {
+                        let sym = match &want {
+                            Want::Table(..) => format!("{tag}: {path} record differs from the {want_name}{ty}"),
+                            Want::Eager(..) => format!("{tag}: {path} resolves a string reference to a different text than the eager path{ty}"),
+                        };
+                        cx.viol(sym, format!("{ctx}: record {ri} field {fi} ({}): got {} want {:?}", kind.label(), short(&v), expected.map(short)));
+                        return;
+                    }
+                }
+            }
+        }
+    }
+}
+
+fn key_type_name(sch: &Sch) -> &'static str {
+    sch.key.map(|k| sch.fields[k].ty.name()).unwrap_or("none")
+}
+
+fn probes(rs: &RecordSet, key: usize) -> (Vec<u32>, BTreeSet<u32>) {
+    let present: BTreeSet<u32> = rs.records().iter().filter_map(|r| r.get_value(key).map(raw).as_ref().and_then(cell_key_bits)).collect();
+    let mut p: Vec<u32> = present.iter().copied().collect();
+    let mut absent: BTreeSet<u32> = [0u32, 1, 2, 4, 6, 0x7FFF_FFFE, 0x7FFF_FFFF, 0x8000_0000, 0x8000_0001, 0xFFFF_FFFE, 0xFFFF_FFFF].into_iter().collect();
+    for k in present.iter().take(64) {
+        absent.insert(k.wrapping_add(1));
+        absent.insert(k.wrapping_sub(1));
+    }
+    p.extend(absent.into_iter().filter(|k| !present.contains(k)));
+    (p, present)
+}
+
+/// `get_record_by_key`, `create_sorted_key_map`, `get_record_by_key_binary_search` on one record set.
+fn check_keys(cx: &mut Cx, which: &str, rs: &RecordSet, sch: &Sch, ctx: &str) {
+    let Some(key) = sch.key else { return };
+    let kt = key_type_name(sch);
+    let (pr, present) = probes(rs, key);
+    cx.r.count("key_lookups", pr.len() as u64 * 4);
+    let judge = |cx: &mut Cx, method: &str, k: u32, got: Option<&Record>| {
+        match got {
+            Some(rec) => {
+                let carried = rec.get_value(key).map(raw).as_ref().and_then(cell_key_bits);
+                if carried != Some(k) {
+                    cx.viol(
+                        format!("key lookup: {method} returns a record that does not carry the key ({kt} key field)"),
+                        format!("{ctx}: {which}: key {:#x} -> record with key {:?}; present={}", k, carried, present.contains(&k)),
+                    );
+                }
+            }
+            None => {
+                if present.contains(&k) {
+                    cx.viol(
+                        format!("key lookup: {method} misses a present key ({kt} key field)"),
+                        format!("{ctx}: {which}: key {:#x} is carried by a record but the lookup returns None", k),
+                    );
+                }
+            }
+        }
+    };
+    for &k in &pr {
+        judge(cx, "get_record_by_key", k, rs.get_record_by_key(k));
+    }
+    // without a sorted map the binary-search entry point falls back to the hashed map
+    for &k in &pr {
+        judge(cx, "get_record_by_key_binary_search (before create_sorted_key_map)", k, rs.get_record_by_key_binary_search(k));
+    }
+    let mut sorted = rs.clone();
+    if let Err(e) = sorted.create_sorted_key_map() {
+        cx.viol(
+            format!("key lookup: create_sorted_key_map fails although the schema has a key field ({kt} key field)"),
+            format!("{ctx}: {which}: {e}"),
+        );
+        return;
+    }
+    for &k in &pr {
+        judge(cx, "get_record_by_key_binary_search", k, sorted.get_record_by_key_binary_search(k));
+        judge(cx, "get_record_by_key (after create_sorted_key_map)", k, sorted.get_record_by_key(k));
+    }
+}
+
+fn lib_get<'a>(rs: &'a RecordSet) -> impl Fn(u32) -> Result<String, String> + 'a {
+    move |o| rs.get_string(StringRef::new(o)).map(|s| s.to_string()).map_err(|e| e.to_string())
+}
+
+/// All four access paths (+ cached strings, + key lookups) on one file.  The eager result is
+/// judged against `want` (independent content of the file); every other path is judged against
+/// the eager result on the same file.  Returns the eager set.
+fn check_file(cx: &mut Cx, tag: &str, bytes: &[u8], sch: &Sch, want: &Table, want_name: &str, ctx: &str, classes: &[usize]) -> Option<RecordSet> {
+    // ---- eager
+    let mut tm = std::time::Instant::now();
+    let parser = match DbcParser::parse_bytes(bytes) {
+        Ok(p) => p,
+        Err(e) => {
+            cx.viol(format!("{tag}: eager parse_bytes refuses a well-formed table"), format!("{ctx}: {e}"));
+            return None;
+        }
+    };
+    let parser = match parser.with_schema(lib_schema(sch)) {
+        Ok(p) => p,
+        Err(e) => {
+            cx.viol(format!("{tag}: with_schema refuses the schema the table was built with"), format!("{ctx}: {e}"));
+            return None;
+        }
+    };
+    let rs = match parser.parse_records() {
+        Ok(r) => r,
+        Err(e) => {
+            cx.viol(format!("{tag}: eager parse_records fails on a well-formed table"), format!("{ctx}: {e}"));
+            return None;
+        }
+    };
+    let eager: Vec<Vec<Cell>> = rs.records().iter().map(raw_rec).collect();
+    compare_path(cx, tag, "eager", &eager, &lib_get(&rs), sch, Want::Table(want, want_name), ctx);
+    let eager_res: Option<Table> = {
+        let g = lib_get(&rs);
+        eager.iter().map(|r| r.iter().map(|c| resolve(c, &g)).collect::<Result<Vec<_>, _>>()).collect::<Result<Vec<_>, _>>().ok()
+    };
+    let n = eager.len();
+    // get_record(i) of the set
+    let by_index: Vec<Vec<Cell>> = (0..rs.len()).filter_map(|i| rs.get_record(i)).map(raw_rec).collect();
+    if by_index != eager {
+        cx.viol(format!("{tag}: RecordSet::get_record(i) differs from records()[i]"), ctx.to_string());
+    }
+    // ---- cached string block
+    {
+        let mut c = rs.clone();
+        c.enable_string_caching();
+        compare_path(cx, tag, "eager with cached string block", &eager, &lib_get(&c), sch, Want::Eager(&eager, eager_res.as_ref()), ctx);
+    }
+    // ---- lazy
+    lap(&mut tm, 0);
+    let sb = Arc::new(rs.string_block().clone());
+    {
+        let lazy = LazyDbcParser::new(parser.data(), parser.header(), parser.schema(), Arc::clone(&sb));
+        let lget = |o: u32| lazy.string_block().get_string(StringRef::new(o)).map(|s| s.to_string()).map_err(|e| e.to_string());
+        let mut it = vec![];
+        let mut ok = true;
+        for (i, x) in lazy.record_iterator().enumerate() {
+            match x {
+                Ok(rec) => it.push(raw_rec(&rec)),
+                Err(e) => {
+                    cx.viol(format!("{tag}: lazy iterator returns Err on a well-formed table"), format!("{ctx}: record {i}: {e}"));
+                    ok = false;
+                    break;
+                }
+            }
+        }
+        if ok {
+            compare_path(cx, tag, "lazy iterator", &it, &lget, sch, Want::Eager(&eager, eager_res.as_ref()), ctx);
+        }
+        let mut gr = vec![];
+        ok = true;
+        for i in 0..n {
+            match lazy.get_record(i as u32) {
+                Ok(rec) => gr.push(raw_rec(&rec)),
+                Err(e) => {
+                    cx.viol(format!("{tag}: lazy get_record returns Err for an existing index"), format!("{ctx}: record {i}: {e}"));
+                    ok = false;
+                    break;
+                }
+            }
+        }
+        if ok {
+            compare_path(cx, tag, "lazy get_record", &gr, &lget, sch, Want::Eager(&eager, eager_res.as_ref()), ctx);
+        }
+    }
+    // ---- memory-mapped (file on disk in the scratch dir)
+    lap(&mut tm, 1);
+    let mut mm_rs: Option<RecordSet> = None;
+    {
+        let path = cx.sc.path("t.dbc");
+        std::fs::write(&path, bytes).expect("scratch write");
+        match MmapDbcFile::open(&path) {
+            Err(e) => cx.viol(format!("{tag}: MmapDbcFile::open fails on a well-formed table"), format!("{ctx}: {e}")),
+            Ok(mm) => {
+                if mm.as_slice() != bytes {
+                    cx.viol(format!("{tag}: mmap view differs from the file content"), ctx.to_string());
+                }
+                if mm.header() != parser.header() {
+                    cx.viol(format!("{tag}: mmap header differs from the eager header"), format!("{ctx}: {:?} vs {:?}", mm.header(), parser.header()));
+                }
+                match mm.parser_with_schema(lib_schema(sch)).and_then(|p| p.parse_records()) {
+                    Err(e) => cx.viol(format!("{tag}: mmap parser fails on a well-formed table"), format!("{ctx}: {e}")),
+                    Ok(rs2) => {
+                        let got: Vec<Vec<Cell>> = rs2.records().iter().map(raw_rec).collect();
+                        compare_path(cx, tag, "mmap parser", &got, &lib_get(&rs2), sch, Want::Eager(&eager, eager_res.as_ref()), ctx);
+                        match mm.string_block() {
+                            Err(e) => cx.viol(format!("{tag}: MmapDbcFile::string_block fails on a well-formed table"), format!("{ctx}: {e}")),
+                            Ok(b) => {
+                                let g = |o: u32| b.get_string(StringRef::new(o)).map(|s| s.to_string()).map_err(|e| e.to_string());
+                                compare_path(cx, tag, "mmap string_block", &got, &g, sch, Want::Eager(&eager, eager_res.as_ref()), ctx);
+                            }
+                        }
+                        mm_rs = Some(rs2);
+                    }
+                }
+            }
+        }
+        let _ = std::fs::remove_file(&path);
+    }
+    // ---- parallel (real rayon), every thread class
+    lap(&mut tm, 2);
+    let mut par_rs: Option<RecordSet> = None;
+    for &tc in classes {
+        let res = in_pool(tc, || wow_cdbc::parse_records_parallel(bytes, parser.header(), parser.schema(), Arc::clone(&sb)));
+        cx.r.count("parallel_runs", 1);
+        match res {
+            Err(e) => cx.viol(
+                format!("{tag}: parse_records_parallel returns Err on a well-formed table"),
+                format!("{ctx}: threads={}: {e}", thread_class_name(tc)),
+            ),
+            Ok(prs) => {
+                let got: Vec<Vec<Cell>> = prs.records().iter().map(raw_rec).collect();
+                let c2 = format!("{ctx} threads={}", thread_class_name(tc));
+                compare_path(cx, tag, "parallel", &got, &lib_get(&prs), sch, Want::Eager(&eager, eager_res.as_ref()), &c2);
+                par_rs = Some(prs);
+            }
+        }
+    }
+    // ---- key lookups on the record sets of every path that builds one
+    lap(&mut tm, 3);
+    if sch.key.is_some() {
+        check_keys(cx, &format!("{tag}, eager record set"), &rs, sch, ctx);
+        if let Some(m) = &mm_rs {
+            check_keys(cx, &format!("{tag}, mmap record set"), m, sch, ctx);
+        }
+        if let Some(p) = &par_rs {
+            check_keys(cx, &format!("{tag}, parallel record set"), p, sch, ctx);
+        }
+    }
+    lap(&mut tm, 4);
+    Some(rs)
+}
+
+const TAG_REF: &str = "reference-emitted table";
+const TAG_LIB: &str = "library-written table";
+const SYM_F1: &str = "write→parse: with_schema refuses the library's own output for a schema with array fields (header field_count counts fields, validation counts array elements)";
+
+/// DbcWriter on a parsed set; independent judgement of the bytes; parse back on all paths.
+fn write_and_check(cx: &mut Cx, rs0: &RecordSet, sch: &Sch, truth: &Table, explicit: bool, ctx: &str, classes: &[usize]) -> Option<Vec<u8>> {
+    let mut cur = Cursor::new(Vec::new());
+    {
+        let mut w = DbcWriter::new(&mut cur);
+        if explicit {
+            w = w.with_schema(lib_schema(sch));
+        }
+        if let Err(e) = w.write_records(rs0) {
+            // a refusal by the writer is allowed ("accepted by the writer")
+            cx.r.err_return = true;
+            cx.flags.insert("writer-refused");
+            cx.r.count("writer_refusals", 1);
+            let _ = e;
+            return None;
+        }
+    }
+    let out = cur.into_inner();
+    cx.r.count("tables_written", 1);
+    let n = truth.len();
+    // ---- independent reader
+    let p = match dbcref::read(&out) {
+        Ok(p) => p,
+        Err(dbcref::ReadErr::Short) => {
+            cx.viol("write: output is shorter than a DBC header".into(), format!("{ctx}: {} bytes", out.len()));
+            return None;
+        }
+        Err(dbcref::ReadErr::Magic) => {
+            cx.viol("write: output does not start with the WDBC magic".into(), format!("{ctx}: {:?}", &out[..4]));
+            return None;
+        }
+        Err(dbcref::ReadErr::Length { expected, actual }) => {
+            cx.viol(
+                "write: file size differs from header + records * record size + string block".into(),
+                format!("{ctx}: header says {expected} bytes, file has {actual}"),
+            );
+            return None;
+        }
+    };
+    if p.record_count as usize != n {
+        cx.viol("write: header record_count differs from the number of records written".into(), format!("{ctx}: header {} records {}", p.record_count, n));
+        return None;
+    }
+    if p.record_size as usize != sch.record_size() {
+        cx.viol(
+            "write: header record_size differs from the sum of the field sizes".into(),
+            format!("{ctx}: header {} schema {}", p.record_size, sch.record_size()),
+        );
+        return None;
+    }
+    if out.len() != 20 + n * sch.record_size() + p.strings.len() {
+        cx.viol("write: file size differs from header + records * record size + string block".into(), format!("{ctx}: {} bytes", out.len()));
+    }
+    match dbcref::block_entries(p.strings) {
+        Err(e) => cx.viol("write: string block is malformed".into(), format!("{ctx}: {e}")),
+        Ok(entries) => {
+            let mut seen: BTreeSet<&[u8]> = BTreeSet::new();
+            for e in &entries {
+                if !seen.insert(e) {
+                    cx.viol(
+                        "write: string block stores an identical string more than once".into(),
+                        format!("{ctx}: {:?} occurs twice in a block of {} bytes", String::from_utf8_lossy(&e[..e.len().min(20)]), p.strings.len()),
+                    );
+                    break;
+                }
+            }
+            cx.r.count("string_block_entries_checked", entries.len() as u64);
+        }
+    }
+    let decoded = dbcref::decode(&p, &sch.fields);
+    match &decoded {
+        Err(e) => cx.viol("write: records cannot be decoded by the independent reader".into(), format!("{ctx}: {e}")),
+        Ok(t) => {
+            'outer: for (ri, row) in t.iter().enumerate() {
+                for (fi, c) in row.iter().enumerate() {
+                    if *c != truth[ri][fi] {
+                        cx.viol(
+                            format!("write: independently decoded value differs from the source record in a field of type {}", sch.fields[fi].class()),
+                            format!("{ctx}: record {ri} field {fi} ({}): file has {} source {}", sch.fields[fi].label(), short(c), short(&truth[ri][fi])),
+                        );
+                        break 'outer;
+                    }
+                }
+            }
+        }
+    }
+    // ---- parse back with the library
+    let mut back = out.clone();
+    let refused = DbcParser::parse_bytes(&back).and_then(|p| p.with_schema(lib_schema(sch))).err();
+    if let Some(e) = refused {
+        let fc = p.field_count as usize;
+        if fc == sch.fields.len() && fc != sch.elements() {
+            cx.viol(SYM_F1.into(), format!("{ctx}: header field_count={} schema fields={} array elements={}: {e}", fc, sch.fields.len(), sch.elements()));
+            cx.flags.insert("own-output-refused(arrays)");
+            // continue behind the defect: give the header the element count so that the rest
+            // of the written file is still judged on every path
+            back[8..12].copy_from_slice(&(sch.elements() as u32).to_le_bytes());
+            cx.r.count("reparse_with_patched_field_count", 1);
+        } else {
+            cx.viol("write→parse: library refuses to parse its own output".into(), format!("{ctx}: {e}"));
+            return Some(out);
+        }
+    }
+    // the library's readers are judged against what the file really contains (independent
+    // reader); whether that equals the source was judged above
+    match &decoded {
+        Ok(t) => check_file(cx, TAG_LIB, &back, sch, t, "content of the file (independent reader)", ctx, classes),
+        Err(_) => check_file(cx, TAG_LIB, &back, sch, truth, "ground truth", ctx, classes),
+    };
+    Some(out)
+}
+
+/// One table: emit -> parse (all paths) -> write (explicit and inherited schema) -> parse (all paths).
+fn run_table(cx: &mut Cx, sch: &Sch, n: usize, kc: KeyClass, layout: Layout) {
+    let truth = gen_table(sch, n, kc, n);
+    let ctx = format!("schema {} n={} keys={} layout={}", sch.render(), n, kc.name(), layout.name());
+    let em = dbcref::emit(&sch.fields, &truth, layout, HeaderKind::Wdbc);
+    cx.r.count("tables_emitted", 1);
+    cx.r.count("records_emitted", n as u64);
+    // thread classes of the parallel path (main space): on the reference file every class whose
+    // chunking differs for this record count (once per record count; the other key orders take one
+    // rotating class); on the written file (same shape) one rotating class for the 7-record tables
+    cx.rot += 1;
+    let rot = [THREAD_CLASSES[cx.rot % 4]];
+    let full = kc == KeyClass::Unsorted;
+    let (ce, cw): (&[usize], &[usize]) = if cx.all_classes {
+        (&THREAD_CLASSES, &THREAD_CLASSES)
+    } else if n <= 1 || !full {
+        (&rot, if n >= 7 { &rot } else { &[] })
+    } else if n == 2 {
+        (&[1, 2], &[])
+    } else {
+        (&THREAD_CLASSES, &rot)
+    };
+    let Some(rs0) = check_file(cx, TAG_REF, &em.bytes, sch, &truth, "ground truth", &ctx, ce) else { return };
+    let a = write_and_check(cx, &rs0, sch, &truth, true, &format!("{ctx} writer=explicit-schema"), cw);
+    // writer without its own schema takes the record set's
+    let mut cur = Cursor::new(Vec::new());
+    let inherited = DbcWriter::new(&mut cur).write_records(&rs0).is_ok();
+    let b = cur.into_inner();
+    if inherited && a.as_deref() == Some(&b[..]) {
+        cx.r.count("inherited_schema_output_identical", 1);
+    } else {
+        write_and_check(cx, &rs0, sch, &truth, false, &format!("{ctx} writer=record-set-schema"), cw);
+    }
+    if n > 0 && a.is_some() {
+        cx.r.nontrivial = true;
+    }
+}
+
+fn outcome(cx: &Cx) -> String {
+    let mut o: Vec<&str> = cx.flags.iter().copied().collect();
+    if cx.r.viols.iter().any(|v| v.symptom.contains("misses a present key")) {
+        o.push("key-miss");
+    }
+    if o.is_empty() {
+        o.push("all-paths-agree");
+    }
+    o.join("+")
+}
+
+/// record sets run for one (schema, key option)
+fn sets_for(has_key: bool) -> Vec<(usize, KeyClass)> {
+    let mut v = vec![(0, KeyClass::Unsorted), (1, KeyClass::Unsorted)];
+    if has_key {
+        for n in [2, 7] {
+            for kc in [KeyClass::Sorted, KeyClass::Unsorted, KeyClass::Dup] {
+                v.push((n, kc));
+            }
+        }
+    } else {
+        v.push((2, KeyClass::Unsorted));
+        v.push((7, KeyClass::Unsorted));
+    }
+    v
+}
+
+// ------------------------------------------------------------------ space "main"
+
+struct Main {
+    maxlen: u32,
+}
+impl Main {
+    /// 36 kinds up to three fields; four-field schemas use 27 kinds (no one-element arrays)
+    fn radix(len: u32) -> u64 {
+        if len <= 3 {
+            NKINDS
+        } else {
+            27
+        }
+    }
+    fn schema(&self, mut i: u64) -> Vec<Kind> {
+        let mut len = 1u32;
+        loop {
+            let c = Self::radix(len).pow(len);
+            if i < c {
+                break;
+            }
+            i -= c;
+            len += 1;
+        }
+        let rx = Self::radix(len);
+        // first field varies slowest so that neighbours differ in the last field
+        let mut f = vec![Kind::from_index(0); len as usize];
+        for p in (0..len as usize).rev() {
+            let k = i % rx;
+            // with 27 kinds: scalars, [2], [3]
+            f[p] = Kind::from_index(if rx == 27 && k >= 9 { k + 9 } else { k });
+            i /= rx;
+        }
+        f
+    }
+}
+impl Space for Main {
+    fn len(&self) -> u64 {
+        (1..=self.maxlen).map(|l| Self::radix(l).pow(l)).sum()
+    }
+    fn describe(&self, i: u64) -> J {
+        let f = self.schema(i);
+        let s = Sch { fields: f, key: None };
+        let keyable: Vec<usize> = (0..s.fields.len()).filter(|&p| s.fields[p].keyable()).collect();
+        json!({"fields": s.labels(), "record_size": s.record_size(), "key_options": {"none": true, "positions": keyable},
+               "record_sets": "n in {0,1,2,7} x key order {sorted,unsorted,duplicate} x string layout"})
+    }
+    fn run(&self, i: u64) -> CaseResult {
+        let fields = self.schema(i);
+        let mut r = CaseResult::new();
+        r.key = format!("{:?}", fields.iter().map(|k| k.label()).collect::<Vec<_>>());
+        let sc = Scratch::new("c17");
+        let out;
+        {
+            let mut cx = Cx { r: &mut r, seen: HashSet::new(), flags: BTreeSet::new(), sc: &sc, all_classes: false, rot: 0, typed: true };
+            let mut keys: Vec<Option<usize>> = vec![None];
+            keys.extend((0..fields.len()).filter(|&p| fields[p].keyable()).map(Some));
+            let mut t = 0usize;
+            for key in keys {
+                let sch = Sch { fields: fields.clone(), key };
+                cx.r.count("schema_key_combinations", 1);
+                for (n, kc) in sets_for(key.is_some()) {
+                    let layout = if t % 2 == 0 { Layout::Pooled } else { Layout::PerCell };
+                    t += 1;
+                    run_table(&mut cx, &sch, n, kc, layout);
+                }
+            }
+            // key on a field that cannot be a key: the library may refuse the schema; not judged
+            for p in 0..fields.len() {
+                if !fields[p].keyable() {
+                    let sch = Sch { fields: fields.clone(), key: Some(p) };
+                    let em = dbcref::emit(&sch.fields, &vec![], Layout::Pooled, HeaderKind::Wdbc);
+                    match DbcParser::parse_bytes(&em.bytes).and_then(|x| x.with_schema(lib_schema(&sch))) {
+                        Ok(_) => cx.r.count("non_keyable_key_accepted", 1),
+                        Err(_) => cx.r.count("non_keyable_key_refused", 1),
+                    }
+                }
+            }
+            out = outcome(&cx);
+        }
+        r.outcome = out;
+        r
+    }
+}
+
+// ------------------------------------------------------------------ space "extra"
+
+#[derive(Clone, Copy, Debug)]
+enum Extra {
+    Wide { w: usize, key: bool, n: usize, kc: KeyClass, layout: Layout },
+    /// schema the library is entitled to refuse (key on a non-32-bit / array field)
+    Refuse { kind: u64 },
+    /// string-focused single-column tables
+    Strings { arr: usize, n: usize, layout: Layout },
+}
+
+struct ExtraSpace {
+    cases: Vec<Extra>,
+}
+impl ExtraSpace {
+    fn new(tier: Tier) -> ExtraSpace {
+        let mut cases = vec![];
+        for k in 0..NKINDS {
+            cases.push(Extra::Refuse { kind: k });
+        }
+        for arr in 0..4 {
+            for n in [1usize, 2, 6, 7, 12, 13] {
+                for layout in [Layout::Pooled, Layout::PerCell] {
+                    cases.push(Extra::Strings { arr, n, layout });
+                }
+            }
+        }
+        for w in 0..3 {
+            for key in [false, true] {
+                for n in [0usize, 1, 2, 7, 10_000] {
+                    let kcs: &[KeyClass] = if key && n >= 2 { &[KeyClass::Sorted, KeyClass::Unsorted, KeyClass::Dup] } else { &[KeyClass::Unsorted] };
+                    for &kc in kcs {
+                        for layout in [Layout::Pooled, Layout::PerCell] {
+                            // quick: the 10^4-record table twice per wide schema (keyed; unsorted/pooled, duplicate/per-cell)
+                            if n == 10_000 && tier == Tier::Quick {
+                                let keep = key && ((kc == KeyClass::Unsorted && layout == Layout::Pooled) || (kc == KeyClass::Dup && layout == Layout::PerCell));
+                                if !keep {
+                                    continue;
+                                }
+                            }
+                            cases.push(Extra::Wide { w, key, n, kc, layout });
+                        }
+                    }
+                }
+            }
+        }
+        ExtraSpace { cases }
+    }
+}
+impl Space for ExtraSpace {
+    fn len(&self) -> u64 {
+        self.cases.len() as u64
+    }
+    fn describe(&self, i: u64) -> J {
+        match self.cases[i as usize] {
+            Extra::Wide { w, key, n, kc, layout } => {
+                let s = wide_schema(w, key);
+                json!({"wide_schema": w, "fields": s.labels(), "key": s.key, "records": n, "keys": kc.name(), "layout": layout.name()})
+            }
+            Extra::Refuse { kind } => json!({"refusable_schema": [Kind::from_index(kind).label()], "key": 0}),
+            Extra::Strings { arr, n, layout } => json!({"fields": [Kind { ty: Ty::Str, arr: ARRS[arr] }.label()], "records": n, "layout": layout.name()}),
+        }
+    }
+    fn case_timeout(&self) -> u64 {
+        120
+    }
+    fn run(&self, i: u64) -> CaseResult {
+        let mut r = CaseResult::new();
+        r.key = format!("x{i}");
+        let sc = Scratch::new("c17");
+        let out;
+        {
+            let mut cx = Cx { r: &mut r, seen: HashSet::new(), flags: BTreeSet::new(), sc: &sc, all_classes: true, rot: 0, typed: true };
+            match self.cases[i as usize] {
+                Extra::Wide { w, key, n, kc, layout } => {
+                    let sch = wide_schema(w, key);
+                    run_table(&mut cx, &sch, n, kc, layout);
+                }
+                Extra::Strings { arr, n, layout } => {
+                    let sch = Sch { fields: vec![Kind { ty: Ty::Str, arr: ARRS[arr] }], key: None };
+                    run_table(&mut cx, &sch, n, KeyClass::Unsorted, layout);
+                }
+                Extra::Refuse { kind } => {
+                    let k = Kind::from_index(kind);
+                    let sch = Sch { fields: vec![k], key: Some(0) };
+                    if k.keyable() {
+                        run_table(&mut cx, &sch, 2, KeyClass::Unsorted, Layout::Pooled);
+                    } else {
+                        let truth = gen_table(&sch, 2, KeyClass::Unsorted, 0);
+                        let em = dbcref::emit(&sch.fields, &truth, Layout::Pooled, HeaderKind::Wdbc);
+                        match DbcParser::parse_bytes(&em.bytes).and_then(|x| x.with_schema(lib_schema(&sch))) {
+                            Err(_) => {
+                                cx.r.err_return = true;
+                                cx.flags.insert("schema-refused(non-32-bit or array key)");
+                            }
+                            Ok(_) => {
+                                cx.flags.insert("non-keyable-key-accepted");
+                            }
+                        }
+                    }
+                }
+            }
+            out = outcome(&cx);
+        }
+        r.outcome = out;
+        r
+    }
+}
+
+// ------------------------------------------------------------------ space "versions"
+
+const VERSION_KINDS: [HeaderKind; 3] = [HeaderKind::Wdb2Basic, HeaderKind::Wdb2Ext, HeaderKind::Wdb2ExtIndex];
+
+fn version_schemas() -> Vec<Sch> {
+    let k = |ty, arr| Kind { ty, arr };
+    vec![
+        Sch { fields: vec![k(Ty::U32, None), k(Ty::Str, None)], key: Some(0) },
+        Sch { fields: vec![k(Ty::U8, None), k(Ty::I16, None), k(Ty::Str, Some(2)), k(Ty::I32, None)], key: None },
+        Sch { fields: vec![k(Ty::F32, Some(3)), k(Ty::Bool, None), k(Ty::U16, None)], key: None },
+    ]
+}
+
+struct Versions;
+impl Versions {
+    fn case(&self, i: u64) -> (HeaderKind, Sch, usize) {
+        let d = gen::mixed_radix(i, &[4, 3, 3]);
+        let n = [0usize, 1, 2, 7][d[0] as usize];
+        (VERSION_KINDS[d[2] as usize], version_schemas()[d[1] as usize].clone(), n)
+    }
+}
+impl Space for Versions {
+    fn len(&self) -> u64 {
+        36
+    }
+    fn describe(&self, i: u64) -> J {
+        let (hk, s, n) = self.case(i);
+        json!({"container": hk.name(), "fields": s.labels(), "key": s.key, "records": n})
+    }
+    fn run(&self, i: u64) -> CaseResult {
+        let (hk, sch, n) = self.case(i);
+        let mut r = CaseResult::new();
+        r.key = format!("v{i}");
+        r.nontrivial = n > 0;
+        let sc = Scratch::new("c17");
+        let out;
+        {
+            let mut cx = Cx { r: &mut r, seen: HashSet::new(), flags: BTreeSet::new(), sc: &sc, all_classes: true, rot: 0, typed: false };
+            let truth = gen_table(&sch, n, KeyClass::Unsorted, n);
+            let em = dbcref::emit(&sch.fields, &truth, Layout::Pooled, hk);
+            let ctx = format!("{} (records start at byte {}) schema {} n={}", hk.name(), em.header_len, sch.render(), n);
+            let tag = match hk {
+                HeaderKind::Wdb2Basic => "WDB2 table (basic header)",
+                HeaderKind::Wdb2Ext => "WDB2 table (extended header)",
+                _ => "WDB2 table (extended header + index arrays)",
+            };
+            check_file(&mut cx, tag, &em.bytes, &sch, &truth, "ground truth", &ctx, &THREAD_CLASSES);
+            cx.r.count("tables_emitted", 1);
+            out = if cx.r.viols.is_empty() { "wdb2-all-paths-agree".to_string() } else { "wdb2-paths-disagree".to_string() };
+        }
+        r.outcome = out;
+        r
+    }
+}
+
+// ------------------------------------------------------------------ stand-alone reproductions
+
+fn repro() {
+    use std::sync::Arc;
+    println!("== F1: DbcWriter output for a schema with an array field is refused by with_schema");
+    let mut sch = Schema::new("T");
+    sch.add_field(SchemaField::new_array("a", FieldType::UInt32, 2));
+    // a 1-record table, 8 bytes per record, header field_count = 2 (array elements)
+    let mut f = b"WDBC".to_vec();
+    for x in [1u32, 2, 8, 1] {
+        f.extend_from_slice(&x.to_le_bytes());
+    }
+    f.extend_from_slice(&[7, 0, 0, 0, 9, 0, 0, 0, 0]);
+    let rs = DbcParser::parse_bytes(&f).unwrap().with_schema(sch.clone()).unwrap().parse_records().unwrap();
+    let mut cur = Cursor::new(Vec::new());
+    DbcWriter::new(&mut cur).with_schema(sch.clone()).write_records(&rs).unwrap();
+    let out = cur.into_inner();
+    println!("   input  header field_count = {}", u32::from_le_bytes(f[8..12].try_into().unwrap()));
+    println!("   output header field_count = {}", u32::from_le_bytes(out[8..12].try_into().unwrap()));
+    match DbcParser::parse_bytes(&out).unwrap().with_schema(sch) {
+        Ok(_) => println!("   parse back: accepted (defect not present)"),
+        Err(e) => println!("   parse back: REFUSED: {e}"),
+    }
+
+    println!("== F2: key lookups on an Int32 key field never find a record");
+    let mut sch = Schema::new("T");
+    sch.add_field(SchemaField::new("id", FieldType::Int32));
+    sch.set_key_field("id");
+    let mut f = b"WDBC".to_vec();
+    for x in [1u32, 1, 4, 1] {
+        f.extend_from_slice(&x.to_le_bytes());
+    }
+    f.extend_from_slice(&[5, 0, 0, 0, 0]);
+    let mut rs = DbcParser::parse_bytes(&f).unwrap().with_schema(sch).unwrap().parse_records().unwrap();
+    println!("   with_schema accepted the Int32 key; record 0 = {:?}", rs.get_record(0).unwrap().values());
+    println!("   get_record_by_key(5) = {:?}", rs.get_record_by_key(5).map(|r| r.values().to_vec()));
+    println!("   create_sorted_key_map() = {:?}", rs.create_sorted_key_map().is_ok());
+    println!("   get_record_by_key_binary_search(5) = {:?}", rs.get_record_by_key_binary_search(5).map(|r| r.values().to_vec()));
+
+    println!("== F3: lazy / parallel / mmap string_block ignore the WDB2 header length");
+    let sch = Sch { fields: vec![Kind { ty: Ty::U32, arr: None }, Kind { ty: Ty::Str, arr: None }], key: None };
+    let truth = vec![vec![Cell::U32(0x11), Cell::Str("a".into())], vec![Cell::U32(0x22), Cell::Str("b".into())]];
+    let em = dbcref::emit(&sch.fields, &truth, Layout::Pooled, HeaderKind::Wdb2Basic);
+    let p = DbcParser::parse_bytes(&em.bytes).unwrap().with_schema(lib_schema(&sch)).unwrap();
+    let rs = p.parse_records().unwrap();
+    println!("   eager   : {:?}", rs.records().iter().map(raw_rec).collect::<Vec<_>>());
+    let sb = Arc::new(rs.string_block().clone());
+    let lazy = LazyDbcParser::new(p.data(), p.header(), p.schema(), sb.clone());
+    println!("   lazy    : {:?}", lazy.record_iterator().map(|x| x.map(|r| raw_rec(&r)).map_err(|e| e.to_string())).collect::<Vec<_>>());
+    let pr = wow_cdbc::parse_records_parallel(&em.bytes, p.header(), p.schema(), sb);
+    println!("   parallel: {:?}", pr.map(|s| s.records().iter().map(raw_rec).collect::<Vec<_>>()).map_err(|e| e.to_string()));
+    let sc = Scratch::new("c17-repro");
+    let path = sc.path("t.db2");
+    std::fs::write(&path, &em.bytes).unwrap();
+    let mm = MmapDbcFile::open(&path).unwrap();
+    println!("   eager string block {:?}, mmap string_block() {:?}", rs.string_block().data(), mm.string_block().map(|b| b.data().to_vec()).map_err(|e| e.to_string()));
+}
+
+// ------------------------------------------------------------------ driver
+
+fn build(name: &str, _arg: &str, tier: Tier) -> Box<dyn Space> {
+    pools();
+    match name {
+        "main" => Box::new(Main { maxlen: tier.pick(3, 4) }),
+        "extra" => Box::new(ExtraSpace::new(tier)),
+        "versions" => Box::new(Versions),
+        _ => panic!("space {name}"),
+    }
+}
+
+fn sweep_stale_scratch() {
+    // worker processes that died inside a case cannot remove their scratch dir
+    if let Ok(rd) = std::fs::read_dir("/dev/shm") {
+        for e in rd.flatten() {
+            let name = e.file_name().to_string_lossy().to_string();
+            if let Some(pid) = name.strip_prefix("verif-c17-") {
+                if pid.chars().all(|c| c.is_ascii_digit()) && !std::path::Path::new(&format!("/proc/{pid}")).exists() {
+                    let _ = std::fs::remove_dir_all(e.path());
+                }
+            }
+        }
+    }
+}
+
+fn main() {
+    if std::env::args().any(|a| a == "--repro") {
+        repro();
+        return;
+    }
+    if std::env::args().any(|a| a == "--bench") {
+        // timing aid: run a slice of the main space in-process
+        install_panic_hook();
+        let sp = build("main", "", Tier::Thorough);
+        for (lo, hi) in [(0u64, 36u64), (36, 36 + 1296), (1332, 1332 + 2000), (47988, 47988 + 2000)] {
+            let t = std::time::Instant::now();
+            let mut v = 0;
+            for i in lo..hi {
+                v += sp.run(i).viols.len();
+            }
+            eprintln!("cases {lo}..{hi}: {:.3} ms/case, {v} viols", t.elapsed().as_secs_f64() * 1000.0 / (hi - lo) as f64);
+            let names = ["eager+cached", "lazy", "mmap", "parallel", "keys", ""];
+            for k in 0..5 {
+                eprintln!("    {:14} {:.3} ms/case", names[k], T_SEC[k].swap(0, std::sync::atomic::Ordering::Relaxed) as f64 / 1e6 / (hi - lo) as f64);
+            }
+        }
+        return;
+    }
+    let Mode::Supervisor(mut c) = start("C17", "exploration", build) else { return };
+    let maxlen = c.tier.pick(3, 4);
+    c.rule = format!(
+        "space main: EVERY schema of 1..={maxlen} fields over 36 field kinds (9 types x {{scalar,[1],[2],[3]}}; four-field schemas over the 27 kinds without [1]); per schema every key option (none + each scalar UInt32/Int32 position) x record sets n in {{0,1,2,7}} (with a key: x key order {{sorted,unsorted,duplicate}}, keys straddling the sign bit) x alternating reference string layouts; cell values cycle per-type boundary pools, strings cycle {{\"\",a,ü,300z,ab,b}} so that duplicates occur inside and across columns. Each table: independent emitter -> parse (eager checked against ground truth) -> DbcWriter (explicit and record-set schema) -> independent reader (size identity, record_size, no string stored twice, values) -> parse back -> eager / cached strings / lazy iterator / lazy get_record / mmap (file in scratch dir) / parse_records_parallel under rayon pools of 4(global),1,2,3 threads -> hashed and binary-search key lookups for every present key and a set of absent keys on the eager, mmap and parallel record sets. space extra: three 24-field schemas x n in {{0,1,2,7,10000}} x key classes x layouts; single String column tables; 36 one-field schemas with the key on field 0 (refusable). space versions: 3 schemas x n in {{0,1,2,7}} x 3 WDB2 header variants through all access paths. A case (= one schema, all its key options and record sets) is non-trivial when at least one table with n>=1 was written and parsed back; distinct by field list."
+    );
+    c.assume("ground truth, emitter and reader (props/c17/src/dbcref.rs) are written from /repo/docs/src/formats/database/dbc.md and share no code with wow-cdbc");
+    c.assume("RecordSet has no public constructor: the writer's input is the library's own parse of the reference-emitted file, and that parse is itself judged against the ground truth first");
+    c.assume("field_count of a reference-emitted header counts array elements (each 32-bit column is a field in the format doc; this is also what Schema::validate demands)");
+    c.assume("Bool cells are emitted as 0/1 only; floats are compared by bit pattern (quiet NaN with payload included, no signalling NaN)");
+    c.assume("key lookups: a lookup must return a record whose key field equals the probe for every present key; for an absent key it must not return a record; with duplicate keys any carrier is accepted; an Int32 key k is looked up as k as u32 (Key = u32)");
+    c.assume("a key on a non-32-bit or array field may be refused by with_schema (counted, not judged); out-of-range indices are not probed");
+    c.assume("the parallel path runs on the real rayon (no schedule exploration; the loom stand-in of DESIGN.md is out of scope of this binary)");
+    c.assume("after the known refusal of array schemas the written header's field_count is patched to the element count so that the remaining content of the written file is still judged");
+    for s in ["main", "extra", "versions"] {
+        c.run_space(s, "");
+    }
+    sweep_stale_scratch();
+    c.extra_cov.insert(
+        "axes".into(),
+        json!({
+            "field_types": 9, "array_options": 4, "field_kinds": 36, "max_fields_exhaustive": maxlen,
+            "schemas_exhaustive": (1..=maxlen).map(|l| Main::radix(l).pow(l)).sum::<u64>(), "field_kinds_four_field_schemas": 27,
+            "record_counts": [0, 1, 2, 7], "record_counts_wide": [0, 1, 2, 7, 10000],
+            "key_order_classes": 3, "string_layouts": 2, "string_pool": 6, "wide_schemas": 3,
+            "access_paths": ["eager", "eager+cached strings", "lazy iterator", "lazy get_record", "mmap parser", "mmap string_block", "parallel"],
+            "rayon_thread_classes": [4, 1, 2, 3], "lookup_methods": ["get_record_by_key", "binary_search(before sort)", "binary_search", "get_record_by_key(after sort)"],
+            "wdb2_header_variants": 3,
+        }),
+    );
+    c.finish();
+}
